@@ -1,136 +1,1070 @@
-"""C08 — Validator verdicts follow the documented constraint semantics.
+"""C08 — Validator verdicts follow the documented constraint semantics (engine `constraints`).
 
-TEMPLATE check (engine `constraints`): shows the protocol every property module follows.
-  translate -> lean build + audit -> known findings -> correspondence (model vs impl) -> oracle on real code.
+Protocol (DESIGN.md §2): translate -> lean build + audit -> fingerprints -> known findings ->
+  A. primitives     : model of float()/int()/datetime.fromisoformat/date regex  vs  CPython
+  B. grid           : exhaustive chains of constructed constraint objects x value pool
+                      implementation vs Lean model (view: valid flag + error codes / escaping exception)
+                      implementation vs the independent Python oracle, and vs the Lean `Spec.chainAccepts`
+  C. parse          : exhaustive chain *texts* through ConstraintChain.parse(text).evaluate(v)
+                      (parsed structure + verdicts vs model; verdicts vs oracle for texts with a documented reading)
+  D. document level : generated schemas x instance blocks through Validator.validate (vs model, vs oracle)
+                      and through octave_validate with the schema placed on the schema search path of a temp cwd
+The oracle always runs on the real code; failures are classified by the known-finding class predicates.
 """
+from __future__ import annotations
+
+import asyncio
 import itertools
 import json
+import math
+import os
+import random
+import re
+import shutil
+import tempfile
+import warnings
 
 import vlib
+from harness import constraints_lib as CL
+
+warnings.filterwarnings("ignore", category=FutureWarning)      # re: "possible nested set" in pool patterns
 
 PROJECT = "constraints"
 PROPS = ["Octave.Props.C08"]
-ANCHORS = [("octave_mcp/core/constraints.py", "ConstraintChain.evaluate"),
-           ("octave_mcp/core/constraints.py", "ConstraintChain.detect_conflicts"),
-           ("octave_mcp/core/constraints.py", "RequiredConstraint"), ("octave_mcp/core/constraints.py", "ConstConstraint"),
-           ("octave_mcp/core/constraints.py", "EnumConstraint")]
+CON = "octave_mcp/core/constraints.py"
+VAL = "octave_mcp/core/validator.py"
+ANCHORS = ([(CON, q) for q in [
+    "RequiredConstraint", "OptionalConstraint", "ConstConstraint", "EnumConstraint", "TypeConstraint", "RegexConstraint",
+    "DirConstraint", "AppendOnlyConstraint", "RangeConstraint", "MaxLengthConstraint", "MinLengthConstraint", "DateConstraint",
+    "Iso8601Constraint", "LiteralConstraint", "LangConstraint", "_parse_atom", "ConstraintChain._split_parts",
+    "ConstraintChain.parse", "ConstraintChain.evaluate", "ConstraintChain.detect_conflicts", "ValidationResult", "ValidationError"]]
+    + [(VAL, q) for q in ["Validator._validate_section", "Validator._validate_unknown_fields", "Validator._to_python_value",
+                          "Validator.validate", "UnknownFieldPolicy", "ValidationError"]]
+    + [("octave_mcp/core/ast_nodes.py", "LiteralZoneValue"), ("octave_mcp/core/holographic.py", "parse_holographic_pattern"),
+       ("octave_mcp/core/schema_extractor.py", "_extract_policy"), ("octave_mcp/core/schema_extractor.py", "_extract_fields"),
+       ("octave_mcp/core/schema_extractor.py", "_parse_field_assignment"), ("octave_mcp/schemas/loader.py", "load_schema_by_name"),
+       ("octave_mcp/schemas/loader.py", "get_schema_search_paths")])
 
-# ---- encoding of values / constraints for the Lean driver ------------------------------------
-
-def enc_val(v):
-    if v is None or isinstance(v, bool):
-        return v
-    if isinstance(v, int):
-        return {"i": str(v)}
-    if isinstance(v, str):
-        return {"s": v}
-    if isinstance(v, list):
-        return {"l": [enc_val(x) for x in v]}
-    raise ValueError("unsupported")
+MAX_RECORDED = 40
 
 
-def enc_c(c):
-    k = c[0]
-    if k in ("REQ", "OPT"):
-        return {"k": k}
-    if k == "CONST":
-        return {"k": k, "v": enc_val(c[1])}
-    if k == "ENUM":
-        return {"k": k, "a": list(c[1])}
-    raise ValueError(k)
+class DistinctCounter:
+    """Stands in for Ctx.distinct: exhaustive enumerations are distinct by construction, so they are
+    counted (`bulk`) instead of hashing tens of millions of cases; sampled cases are hashed as usual."""
+
+    def __init__(self):
+        self.n = 0
+        self.seen = set()
+
+    def add(self, h):
+        self.seen.add(h)
+
+    def bulk(self, n):
+        self.n += n
+
+    def __len__(self):
+        return self.n + len(self.seen)
 
 
-def build_impl(c):
-    from octave_mcp.core import constraints as C
-    k = c[0]
-    if k == "REQ":
-        return C.RequiredConstraint()
-    if k == "OPT":
-        return C.OptionalConstraint()
-    if k == "CONST":
-        return C.ConstConstraint(const_value=c[1])
-    if k == "ENUM":
-        return C.EnumConstraint(allowed_values=list(c[1]))
-    raise ValueError(k)
+# ================================================================================================
+# shared helpers
+# ================================================================================================
 
-
-POOL_C = [("REQ",), ("OPT",), ("CONST", "ACTIVE"), ("CONST", "DONE"), ("CONST", 1), ("CONST", True), ("CONST", None),
-          ("ENUM", ("ACTIVE", "ACTIVATING", "DONE")), ("ENUM", ("A", "B")), ("ENUM", ("1", "True"))]
-POOL_V = [None, "", "ACTIVE", "ACTIV", "ACT", "CTIVE", "TIV", "DONE", "ONE", "D", "A", "x", "active", " ACTIVE", 1, 0, True, False, ["A"], [], ["A", 1]]
-
-
-def impl_eval(chain, value):
-    """Reference: independent reading of the documented semantics (not the model, not the code)."""
+def impl_chain_eval(objs, v):
+    """(codes, exc) of ConstraintChain(objs).evaluate(v)."""
     from octave_mcp.core.constraints import ConstraintChain
-    ch = ConstraintChain([build_impl(c) for c in chain])
-    r = ch.evaluate(value, "F")
-    return [e.code for e in r.errors]
+    try:
+        r = ConstraintChain(objs).evaluate(v, "F")
+    except Exception as e:                                   # no licence to raise
+        return None, type(e).__name__
+    codes = [e.code for e in r.errors]
+    if r.valid != (codes == []):
+        return codes + ["<valid-flag-inconsistent>"], None
+    return codes, None
 
 
-def spec_accepts(chain, value):
-    """Independent oracle written from the property statement: no conflict and every member accepts."""
-    def pstr(v):
-        return str(v)
-    has_req = any(c[0] == "REQ" for c in chain)
-    has_opt = any(c[0] == "OPT" for c in chain)
-    consts = [c[1] for c in chain if c[0] == "CONST"]
-    enums = [c[1] for c in chain if c[0] == "ENUM"]
-    if has_req and has_opt:
+def cell_of(codes, exc):
+    return ("!" + exc) if exc is not None else ",".join(codes)
+
+
+def classify(findings, chain, v):
+    """id of the open known-finding class the failing input falls in, else None."""
+    for f in findings:
+        pred = CL.CLASS_PREDICATES.get(f["cls"])
+        if pred is not None and pred(chain, v):
+            return f["id"]
+    return None
+
+
+_POOLS = {}
+
+
+def pools(name):
+    """(specs, objs) of a constraint pool / decoded values of a value pool — cached per process."""
+    if name in _POOLS:
+        return _POOLS[name]
+    if name.startswith("C:"):
+        specs = []
+        for part in name[2:].split("+"):
+            specs += {"core": CL.POOL_C_CORE, "more": CL.POOL_C_MORE, "thorough": CL.POOL_C_THOROUGH}[part]
+        res = (specs, [CL.build_impl(c) for c in specs])
+    else:
+        enc = {"V": CL.POOL_V, "Vs": CL.POOL_V_SMALL}[name]
+        res = (enc, [CL.dec_val(e) for e in enc])
+    _POOLS[name] = res
+    return res
+
+
+def grid_env(specs, values):
+    pats = [c[1] for c in specs if c[0] == "REGEX"]
+    rows, ok = CL.re_tables(pats, values)
+    return {"re": rows, "reok": ok, "fr": []}
+
+
+# ================================================================================================
+# B. grid worker
+# ================================================================================================
+
+def grid_worker(task):
+    exe, cname, vname, chains, findings = task
+    specs, objs = pools(cname)
+    venc, vals = pools(vname)
+    drv = vlib.Driver(exe)
+    req = {"op": "grid", "constraints": [CL.obj_to_driver(o) for o in objs], "values": venc,
+           "chains": [list(ch) for ch in chains], "env": grid_env(specs, vals)}
+    rep = drv.batch([req])[0]
+    if "rows" not in rep:
+        raise vlib.Infra("grid reply: " + json.dumps(rep)[:300])
+    out = {"n": 0, "unsupported": 0, "dontcare": 0, "dist": {}, "disagree": [], "fail": [], "known": {}, "sample": None}
+    dist = out["dist"]
+    member = {}                                            # (ci, vi) -> oracle verdict of one member
+    for ch, row in zip(chains, rep["rows"]):
+        cells = row.split(";")
+        chain_specs = [specs[i] for i in ch]
+        chain_objs = [objs[i] for i in ch]
+        conflict = CL.oracle_conflict(chain_specs)
+        for vi, v in enumerate(vals):
+            out["n"] += 1
+            codes, exc = impl_chain_eval(chain_objs, v)
+            icell = cell_of(codes, exc)
+            key = "raise:" + exc if exc else ("valid" if not codes else "invalid:" + ",".join(sorted(set(codes))))
+            dist[key] = dist.get(key, 0) + 1
+            mcell = cells[vi]
+            case = None
+            if mcell == "?":
+                out["unsupported"] += 1
+                spec = None
+            else:
+                mres, _, sbit = mcell.rpartition("/")
+                spec = sbit == "1"
+                if mres != icell and len(out["disagree"]) < MAX_RECORDED:
+                    case = {"kind": "chain", "chain": chain_specs, "value": venc[vi]}
+                    out["disagree"].append({"case": case, "model": mres, "impl": icell, "view": "valid flag + error codes / exception"})
+            # oracle (independent reference)
+            if conflict:
+                want = False
+            else:
+                want, dc = True, False
+                for ci in ch:
+                    k = (ci, vi)
+                    if k not in member:
+                        member[k] = CL.oracle_member(specs[ci], v)
+                    r = member[k]
+                    if r is False:
+                        want = False
+                        break
+                    if r is None:
+                        dc = True
+                if want and dc:
+                    want = None
+            if want is None:
+                out["dontcare"] += 1
+            why = None
+            if exc is not None:
+                why = ("raise", f"evaluate raised {exc}")
+            elif want is not None and (codes == []) != want:
+                why = ("verdict", f"chain verdict valid={codes == []} codes={codes} but the documented semantics say valid={want}")
+            elif spec is not None and (codes == []) != spec:
+                why = ("lean-spec", f"chain verdict valid={codes == []} codes={codes} but Lean Spec.chainAccepts says {spec}")
+            if why:
+                fid = classify(findings, chain_specs, v)
+                if fid:
+                    out["known"][fid] = out["known"].get(fid, 0) + 1
+                elif len(out["fail"]) < MAX_RECORDED:
+                    case = case or {"kind": "chain", "chain": chain_specs, "value": venc[vi]}
+                    out["fail"].append({"case": case, "why": why[1], "why_class": why[0], "observed": icell, "required_valid": want})
+        if out["sample"] is None and ch:
+            out["sample"] = {"kind": "chain", "chain": chain_specs, "value": venc[len(ch) % len(venc)]}
+    return out
+
+
+def chunked(it, n):
+    buf = []
+    for x in it:
+        buf.append(x)
+        if len(buf) >= n:
+            yield buf
+            buf = []
+    if buf:
+        yield buf
+
+
+def merge(ctx, outs, label):
+    total = 0
+    for o in outs:
+        total += o["n"]
+        for k, n in o["dist"].items():
+            ctx.count(f"{label}:{k}", n)
+        ctx.count(f"{label}:model_unsupported", o.get("unsupported", 0))
+        ctx.count(f"{label}:oracle_dontcare", o.get("dontcare", 0))
+        for d in o["disagree"]:
+            if len(ctx.corr_disagreements) < MAX_RECORDED:
+                ctx.corr_disagreements.append(d)
+        for f in o["fail"]:
+            if len(ctx.failures) < MAX_RECORDED:
+                ctx.failures.append(f)
+        for fid, n in o["known"].items():
+            ctx.known_hits[fid] = ctx.known_hits.get(fid, 0) + n
+        if o.get("sample") is not None and len(ctx.samples) < 8 and ctx.rng.random() < 0.05:
+            ctx.samples.append(o["sample"])
+    ctx.evaluations += total
+    ctx.distinct.bulk(total)
+    ctx.count(f"{label}:cases", total)
+    return total
+
+
+# ================================================================================================
+# C. parse worker
+# ================================================================================================
+
+# documented reading of well-formed part texts: text -> portable spec | "ERR" (the documentation says: reject)
+T_SPEC = {
+    "REQ": ["REQ"], "OPT": ["OPT"], "DIR": ["DIR"], "APPEND_ONLY": ["APPEND_ONLY"], "DATE": ["DATE"], "ISO8601": ["ISO8601"],
+    "TYPE[LITERAL]": ["LITERAL"], "LANG[python]": ["LANG", "python"], "LANG[Python]": ["LANG", "python"],
+    "CONST[ACTIVE]": ["CONST", CL.S("ACTIVE")], "CONST[1]": ["CONST", CL.I(1)], "CONST[1.0]": ["CONST", CL.F(1.0)],
+    "CONST[true]": ["CONST", True], "CONST[null]": ["CONST", None], 'CONST["a b"]': ["CONST", CL.S("a b")],
+    "ENUM[ACTIVE,ACTIVATING,DONE]": ["ENUM", [CL.S("ACTIVE"), CL.S("ACTIVATING"), CL.S("DONE")]], "ENUM[A, B]": ["ENUM", [CL.S("A"), CL.S("B")]],
+    "ENUM[1,true,null]": ["ENUM", [CL.I(1), True, None]],
+    "TYPE[STRING]": ["TYPE", "STRING"], "TYPE(NUMBER)": ["TYPE", "NUMBER"], "TYPE[BOOLEAN]": ["TYPE", "BOOLEAN"], "TYPE[LIST]": ["TYPE", "LIST"],
+    'REGEX["^[a-z]+$"]': ["REGEX", "^[a-z]+$"], "REGEX[^a$]": ["REGEX", "^a$"],
+    "RANGE[1,5]": ["RANGE", CL.I(1), CL.I(5)], "RANGE[-1.5,2.5]": ["RANGE", CL.F(-1.5), CL.F(2.5)],
+    "MAX_LENGTH[3]": ["MAX_LENGTH", 3], "MIN_LENGTH[3]": ["MIN_LENGTH", 3],
+    "RANGE[5,1]": "ERR", "RANGE[1]": "ERR", "RANGE[a,5]": "ERR", "MAX_LENGTH[-1]": "ERR", "LANG[]": "ERR", "FOO": "ERR", "req": "ERR",
+    "REGEX[(]": "ERR",
+    "RANGE[5,5]": ["RANGE", CL.I(5), CL.I(5)], "RANGE[ 1 , 5 ]": ["RANGE", CL.I(1), CL.I(5)], "ENUM[A]": ["ENUM", [CL.S("A")]],
+    "MAX_LENGTH[0]": ["MAX_LENGTH", 0], "ENUM[ A , B ]": ["ENUM", [CL.S("A"), CL.S("B")]],
+}
+
+
+def parse_worker(task):
+    exe, vname, texts, findings = task          # texts: [(text, [part texts] | None)]
+    venc, vals = pools(vname)
+    from octave_mcp.core.constraints import ConstraintChain
+    drv = vlib.Driver(exe)
+    pats, fr = [], []
+    for t, _ in texts:
+        for p in CL.regex_candidates(t):
+            if p not in pats:
+                pats.append(p)
+        fr += CL.float_repr_table(t)
+    rows, ok = CL.re_tables(pats, vals)
+    rep = drv.batch([{"op": "parse_grid", "texts": [t for t, _ in texts], "values": venc, "env": {"re": rows, "reok": ok, "fr": fr}}])[0]
+    if "rows" not in rep:
+        raise vlib.Infra("parse_grid reply: " + json.dumps(rep)[:300])
+    out = {"n": 0, "unsupported": 0, "dontcare": 0, "dist": {}, "disagree": [], "fail": [], "known": {}, "sample": None}
+    dist = out["dist"]
+
+    def bump(k, n=1):
+        dist[k] = dist.get(k, 0) + n
+
+    for (text, parts), mrow in zip(texts, rep["rows"]):
+        # documented reading, if every part has one
+        want_specs = None
+        if parts is not None:
+            rs = [T_SPEC.get(p) for p in parts]
+            if any(r == "ERR" for r in rs) and all(r is not None for r in rs):
+                want_specs = "ERR"
+            elif all(r is not None for r in rs):
+                want_specs = rs
+        try:
+            chain = ConstraintChain.parse(text)
+            perr = None
+        except ValueError:
+            chain, perr = None, "ValueError"
+        except Exception as e:
+            chain, perr = None, type(e).__name__
+        case0 = {"kind": "parse", "text": text}
+        if perr is not None:
+            out["n"] += 1
+            bump("parse:" + perr)
+            if perr != "ValueError" and len(out["fail"]) < MAX_RECORDED:
+                out["fail"].append({"case": case0, "why": f"ConstraintChain.parse raised {perr} (only ValueError is documented)", "why_class": "parse-raise"})
+            if "u" in mrow:
+                out["unsupported"] += 1
+            elif mrow.get("p") != perr and len(out["disagree"]) < MAX_RECORDED:
+                out["disagree"].append({"case": case0, "model": mrow, "impl": {"p": perr}, "view": "parse outcome"})
+            if isinstance(want_specs, list) and len(out["fail"]) < MAX_RECORDED:
+                out["fail"].append({"case": case0, "why": f"well-formed chain text rejected by parse ({perr})", "why_class": "parse-reject"})
+            continue
+        bump("parse:ok")
+        if want_specs == "ERR" and len(out["fail"]) < MAX_RECORDED:
+            out["fail"].append({"case": case0, "why": "chain text with an invalid member was accepted by parse", "why_class": "parse-accept"})
+        try:
+            impl_struct = [CL.norm_driver_c(CL.obj_to_driver(o)) for o in chain.constraints]
+        except ValueError as e:
+            impl_struct = ["<" + str(e) + ">"]
+        mcells = None
+        if "u" in mrow:
+            out["unsupported"] += 1
+        elif "p" in mrow:
+            if len(out["disagree"]) < MAX_RECORDED:
+                out["disagree"].append({"case": case0, "model": mrow, "impl": impl_struct, "view": "parse outcome"})
+        else:
+            mstruct = [CL.norm_driver_c(c) for c in mrow["c"]]
+            if mstruct != impl_struct and len(out["disagree"]) < MAX_RECORDED:
+                out["disagree"].append({"case": case0, "model": mstruct, "impl": impl_struct, "view": "parsed constraint list"})
+            mcells = mrow["r"].split(";")
+        if isinstance(want_specs, list):
+            want_struct = [CL.norm_driver_c(CL.obj_to_driver(CL.build_impl(c))) for c in want_specs]
+            if want_struct != impl_struct and len(out["fail"]) < MAX_RECORDED:
+                out["fail"].append({"case": case0, "why": f"parse produced {impl_struct}, the documented reading is {want_struct}", "why_class": "parse-structure"})
+        for vi, v in enumerate(vals):
+            out["n"] += 1
+            codes, exc = impl_chain_eval(chain.constraints, v)
+            icell = cell_of(codes, exc)
+            bump("raise:" + exc if exc else ("valid" if not codes else "invalid"))
+            case = {"kind": "parse", "text": text, "value": venc[vi]}
+            spec = None
+            if mcells is not None:
+                if mcells[vi] == "?":
+                    out["unsupported"] += 1
+                else:
+                    mres, _, sbit = mcells[vi].rpartition("/")
+                    spec = sbit == "1"
+                    if mres != icell and len(out["disagree"]) < MAX_RECORDED:
+                        out["disagree"].append({"case": case, "model": mres, "impl": icell, "view": "valid flag + error codes / exception"})
+            want = CL.oracle_chain(want_specs, v) if isinstance(want_specs, list) else None
+            if want is None:
+                out["dontcare"] += 1
+            why = None
+            if exc is not None:
+                why = ("raise", f"evaluate raised {exc}")
+            elif want is not None and (codes == []) != want:
+                why = ("verdict", f"parse(text).evaluate: valid={codes == []} codes={codes} but the documented semantics say valid={want}")
+            elif spec is not None and isinstance(want_specs, list) and (codes == []) != spec:
+                why = ("lean-spec", f"parse(text).evaluate: valid={codes == []} but Lean Spec.chainAccepts says {spec}")
+            if why:
+                cl_chain = want_specs if isinstance(want_specs, list) else [json.loads(json.dumps(spec_of_obj(o))) for o in chain.constraints]
+                fid = classify(findings, cl_chain, v)
+                if fid:
+                    out["known"][fid] = out["known"].get(fid, 0) + 1
+                elif len(out["fail"]) < MAX_RECORDED:
+                    out["fail"].append({"case": case, "why": why[1], "why_class": why[0], "observed": icell, "required_valid": want})
+        if out["sample"] is None:
+            out["sample"] = {"kind": "parse", "text": text, "value": venc[0]}
+    return out
+
+
+def spec_of_obj(o):
+    """portable spec of a real constraint object (for the class predicates)."""
+    d = CL.obj_to_driver(o)
+    k = d["k"]
+    if k == "CONST":
+        return ["CONST", d["v"]]
+    if k == "ENUM":
+        return ["ENUM", [CL.S(a) for a in d["a"]]]
+    if k in ("TYPE",):
+        return ["TYPE", d["t"]]
+    if k == "REGEX":
+        return ["REGEX", d["p"]]
+    if k == "RANGE":
+        return ["RANGE", CL.enc_val(o.min_value), CL.enc_val(o.max_value)]
+    if k in ("MAX_LENGTH", "MIN_LENGTH"):
+        return [k, int(d["n"])]
+    if k == "LANG":
+        return ["LANG", d["t"]]
+    return [k]
+
+
+# ================================================================================================
+# D. document level
+# ================================================================================================
+
+ENUM3 = ["ENUM", [CL.S("ACTIVE"), CL.S("ACTIVATING"), CL.S("DONE")]]
+DOC_CHAINS = [
+    None,                                                        # field without a holographic pattern
+    [["REQ"]],
+    [["OPT"]],
+    [["REQ"], ENUM3],
+    [["OPT"], ["RANGE", CL.I(1), CL.I(5)]],
+    [["REQ"], ["TYPE", "STRING"], ["MAX_LENGTH", 3]],
+    [["CONST", CL.S("X")]],
+    [["REQ"], ["OPT"]],                                          # declared conflict
+    [["DATE"]],
+    [["REQ"], ["TYPE", "LIST"], ["MIN_LENGTH", 1]],
+]
+DOC_CHAIN_TEXT = [None, "REQ", "OPT", "REQ∧ENUM[ACTIVE,ACTIVATING,DONE]", "OPT∧RANGE[1,5]", "REQ∧TYPE[STRING]∧MAX_LENGTH[3]", "CONST[X]", "REQ∧OPT",
+                  "DATE", "REQ∧TYPE[LIST]∧MIN_LENGTH[1]"]
+ABSENT = "<absent>"
+# field states: absent | one assignment | two assignments (the last one wins)
+DOC_STATES = [ABSENT, [None], [CL.S("ACTIVE")], [CL.S("ACT")], [CL.S("abcd")], [CL.I(3)], [CL.I(9)], [CL.S("X")], [CL.L(CL.S("a"))], [CL.L()],
+              [CL.S("2024-02-30")], [CL.S("2024-01-15")], [CL.S("")], [CL.S("ACTIVE"), CL.I(9)], [CL.I(9), CL.S("ACTIVE")], [CL.S("nan")]]
+DOC_POLICIES = ["REJECT", "WARN", "IGNORE", "BOGUS", None]
+DOC_EXTRAS = [[], ["ZED"], ["ZED", "ALPHA"], ["ALPHA", "ALPHA"]]
+FIELD_NAMES = ["B_FIELD", "A_FIELD", "C_FIELD"]
+SECTION = "SEC"
+
+
+def doc_seq(states, extras):
+    """the Assignment children in document order: first extra, the fields' assignments, the other extras."""
+    ex = [(k, CL.I(i + 1)) for i, k in enumerate(extras)]
+    seq = ex[:1]
+    for name, st in zip(FIELD_NAMES, states):
+        if st != ABSENT:
+            for e in st:
+                seq.append((name, e))
+    return seq + ex[1:]
+
+
+def doc_build(chains, policy, states, extras):
+    """Real objects: (Document, {section: SchemaDefinition}) and the model request."""
+    from octave_mcp.core.ast_nodes import Assignment, Block, Document, ListValue
+    from octave_mcp.core.constraints import ConstraintChain
+    from octave_mcp.core.holographic import HolographicPattern
+    from octave_mcp.core.schema_extractor import FieldDefinition, PolicyDefinition, SchemaDefinition
+
+    def ast_val(e):
+        v = CL.dec_val(e)
+        if isinstance(v, list):
+            return ListValue(items=[ast_val(x) if isinstance(x, dict) and "l" in x else CL.dec_val(x) for x in e["l"]])
+        return v
+
+    fields, mfields = {}, []
+    for name, ch in zip(FIELD_NAMES, chains):
+        if ch is None:
+            fields[name] = FieldDefinition(name=name, pattern=None, raw_value="plain")
+            mfields.append([name, None])
+        else:
+            objs = [CL.build_impl(c) for c in ch]
+            fields[name] = FieldDefinition(name=name, pattern=HolographicPattern(example="x", constraints=ConstraintChain(objs), target=None))
+            mfields.append([name, [CL.obj_to_driver(o) for o in objs]])
+    schema = SchemaDefinition(name=SECTION, version="1.0", fields=fields)
+    if policy is None:
+        schema.policy = None
+    else:
+        schema.policy = PolicyDefinition(unknown_fields=policy)
+    children, mchildren = [], []
+    for k, e in doc_seq(states, extras):
+        children.append(Assignment(key=k, value=ast_val(e)))
+        mchildren.append([k, e])
+    doc = Document(name="DOC", sections=[Block(key=SECTION, children=children)])
+    req = {"op": "validate_section", "key": SECTION, "children": mchildren, "policy": policy if policy is not None else "REJECT",
+           "fields": mfields, "env": {"re": [], "reok": [], "fr": []}}
+    return doc, {SECTION: schema}, req
+
+
+def doc_oracle(chains, policy, states, extras, entries):
+    """Independent reading of the document-level clauses. entries: [(code, path, severity)].
+    Returns a list of complaints (empty = fine)."""
+    bad = []
+
+    def named(path, sev=None):
+        return [e for e in entries if e[1] == path and (sev is None or e[2] == sev)]
+
+    seq = doc_seq(states, extras)
+    known = FIELD_NAMES[:len(chains)]
+    for name, ch in zip(known, chains):
+        path = f"{SECTION}.{name}"
+        if ch is None:
+            continue
+        assigned = [e for (k, e) in seq if k == name]
+        value = CL.dec_val(assigned[-1]) if assigned else None          # a later assignment replaces an earlier one
+        has_req = any(c[0] == "REQ" for c in ch)
+        if has_req and value is None:
+            if not named(path, "error"):
+                bad.append(f"required field {name} is missing but no error names {path}")
+            continue
+        if value is None:
+            if named(path):
+                bad.append(f"absent optional field {name} produced {named(path)}")
+            continue
+        want = CL.oracle_chain(ch, value)
+        if want is True and named(path, "error"):
+            bad.append(f"field {name}={value!r} satisfies its chain but errors were reported: {named(path)}")
+        if want is False and not named(path, "error"):
+            bad.append(f"field {name}={value!r} violates its chain but no error names {path}")
+    for k in {k for (k, _e) in seq}:
+        if k in known:
+            continue
+        path = f"{SECTION}.{k}"
+        if policy == "REJECT":
+            if not named(path, "error"):
+                bad.append(f"unknown field {k} under REJECT: no error names {path}")
+        elif policy == "WARN":
+            if not named(path, "warning"):
+                bad.append(f"unknown field {k} under WARN: no warning names {path}")
+            if named(path, "error"):
+                bad.append(f"unknown field {k} under WARN produced an error: {named(path, 'error')}")
+        elif policy == "IGNORE":
+            if named(path):
+                bad.append(f"unknown field {k} under IGNORE produced {named(path)}")
+    return bad
+
+
+def doc_classify(findings, chains, states, extras=()):
+    seq = doc_seq(states, extras)
+    for name, ch in zip(FIELD_NAMES, chains):
+        assigned = [e for (k, e) in seq if k == name]
+        if ch is not None and assigned:
+            fid = classify(findings, ch, CL.dec_val(assigned[-1]))
+            if fid:
+                return fid
+    return None
+
+
+def doc_worker(task):
+    exe, cases, findings = task
+    from octave_mcp.core.validator import Validator
+    drv = vlib.Driver(exe)
+    built = [doc_build(*c) for c in cases]
+    reps = drv.batch([b[2] for b in built])
+    out = {"n": 0, "unsupported": 0, "dontcare": 0, "dist": {}, "disagree": [], "fail": [], "known": {}, "sample": None}
+    dist = out["dist"]
+    for c, (doc, sschemas, _req), rep in zip(cases, built, reps):
+        out["n"] += 1
+        chains, policy, states, extras = c
+        case = {"kind": "doc", "chains": chains, "policy": policy, "states": states, "extras": extras}
+        try:
+            errs = Validator().validate(doc, strict=False, section_schemas=sschemas)
+            entries = sorted((e.code, e.field_path, e.severity) for e in errs)
+            exc = None
+        except Exception as e:
+            entries, exc = None, type(e).__name__
+        for k in (["raise:" + exc] if exc else (["entry:" + e[0] for e in entries] or ["no-entries"])):
+            dist[k] = dist.get(k, 0) + 1
+        if "unsupported" in rep:
+            out["unsupported"] += 1
+        else:
+            m = ("!" + rep["raised"]) if "raised" in rep else sorted(tuple(x) for x in rep["errors"])
+            i = ("!" + exc) if exc else entries
+            if m != i and len(out["disagree"]) < MAX_RECORDED:
+                out["disagree"].append({"case": case, "model": m, "impl": i, "view": "sorted (code, field_path, severity)"})
+        complaints = [f"Validator.validate raised {exc}"] if exc else doc_oracle(chains, policy, states, extras, entries)
+        if complaints:
+            fid = doc_classify(findings, chains, states, extras)
+            if fid:
+                out["known"][fid] = out["known"].get(fid, 0) + 1
+            elif len(out["fail"]) < MAX_RECORDED:
+                out["fail"].append({"case": case, "why": complaints[0], "why_class": "document:" + ("raise" if exc else complaints[0].split(":")[0][:40]),
+                                    "observed": entries if entries is not None else exc})
+        if out["sample"] is None:
+            out["sample"] = case
+    return out
+
+
+# ---- tool level: octave_validate with the schema on the search path of a temp cwd -----------------
+
+def val_text(e):
+    """OCTAVE spelling of a value (None if the value has no faithful spelling we rely on)."""
+    if e is None:
+        return "null"
+    if e is True:
+        return "true"
+    if e is False:
+        return "false"
+    if "i" in e:
+        return e["i"]
+    if "s" in e:
+        s = e["s"]
+        if re.fullmatch(r"[A-Za-z][A-Za-z_]*", s) and s not in ("true", "false", "null"):
+            return s
+        if '"' in s or "\\" in s or "\n" in s:
+            return None
+        return '"' + s + '"'
+    if "l" in e:
+        parts = [val_text(x) for x in e["l"]]
+        return None if any(p is None for p in parts) else "[" + ",".join(parts) + "]"
+    return None
+
+
+def tool_worker(task):
+    cases, findings, widx = task
+    from octave_mcp.core.parser import parse
+    from octave_mcp.core.validator import Validator
+    from octave_mcp.mcp.validate import ValidateTool
+    from octave_mcp.schemas.loader import load_schema_by_name
+    out = {"n": 0, "unsupported": 0, "dontcare": 0, "dist": {}, "disagree": [], "fail": [], "known": {}, "sample": None}
+    dist = out["dist"]
+
+    def bump(k):
+        dist[k] = dist.get(k, 0) + 1
+
+    tmp = tempfile.mkdtemp(prefix=f"c08_{os.getpid()}_")
+    old = os.getcwd()
+    try:
+        os.makedirs(os.path.join(tmp, "specs", "schemas"))
+        os.chdir(tmp)
+        schema_cache = {}
+        for (cidx, policy, states, extras) in cases:
+            chains = [DOC_CHAINS[i] for i in cidx]
+            case = {"kind": "tool", "chain_idx": list(cidx), "policy": policy, "states": states, "extras": extras}
+            skey = (tuple(cidx), policy)
+            if skey not in schema_cache:
+                name = f"C08W{widx}S{len(schema_cache)}"
+                lines = [f"==={name}===", "META:", "  TYPE::PROTOCOL_DEFINITION", '  VERSION::"1.0"', "", "POLICY:", '  VERSION::"1.0"',
+                         f"  UNKNOWN_FIELDS::{policy}", "", "FIELDS:"]
+                for fname, ci in zip(FIELD_NAMES, cidx):
+                    t = DOC_CHAIN_TEXT[ci]
+                    lines.append(f"  {fname}::plain" if t is None else f'  {fname}::["x"∧{t}]')
+                lines.append("===END===")
+                with open(os.path.join(tmp, "specs", "schemas", name.lower() + ".oct.md"), "w", encoding="utf-8") as fh:
+                    fh.write("\n".join(lines) + "\n")
+                faithful = False
+                try:
+                    sd = load_schema_by_name(name)
+                    got = [(k, (fd.pattern.constraints.to_string() if fd.pattern and fd.pattern.constraints else None), fd.pattern.target if fd.pattern else None)
+                           for k, fd in sd.fields.items()]
+                    exp = []
+                    from octave_mcp.core.constraints import ConstraintChain
+                    for fname, ch in zip(FIELD_NAMES, chains):
+                        exp.append((fname, None if ch is None else ConstraintChain([CL.build_impl(c) for c in ch]).to_string(), None))
+                    faithful = got == exp and sd.policy.unknown_fields == policy and sd.name == name
+                except Exception:
+                    faithful = False
+                schema_cache[skey] = (name, faithful)
+            name, faithful = schema_cache[skey]
+            if not faithful:
+                bump("tool:schema_text_not_faithful")
+                continue
+            # the instance document
+            lines, ok, seq = ["===DOC===", f"{name}:"], True, doc_seq(states, extras)
+            for k, e in seq:
+                t = val_text(e)
+                if t is None:
+                    ok = False
+                    break
+                lines.append(f"  {k}::{t}")
+            if not ok or not seq:
+                bump("tool:no_faithful_spelling")
+                continue
+            lines.append("===END===")
+            text = "\n".join(lines) + "\n"
+            try:
+                d = parse(text)
+                blk = [s for s in d.sections if getattr(s, "key", None) == name][0]
+                got = [(ch.key, CL.enc_val(Validator()._to_python_value(ch.value))) for ch in blk.children]
+                if got != [(k, e) for k, e in seq]:
+                    bump("tool:doc_text_not_faithful")
+                    continue
+            except Exception:
+                bump("tool:doc_text_not_faithful")
+                continue
+            out["n"] += 1
+            try:
+                res = asyncio.run(ValidateTool().execute(content=text, schema=name))
+                exc = None
+            except Exception as e:
+                res, exc = None, type(e).__name__
+            if exc:
+                bump("tool:raise:" + exc)
+                fid = doc_classify(findings, chains, states, extras)
+                if fid:
+                    out["known"][fid] = out["known"].get(fid, 0) + 1
+                elif len(out["fail"]) < MAX_RECORDED:
+                    out["fail"].append({"case": case, "why": f"octave_validate raised {exc}", "why_class": "tool:raise"})
+                continue
+            status = res.get("validation_status")
+            bump("tool:" + str(status))
+            ventries = sorted((e["code"], e["field"], "warning" if e["code"].startswith("W") else "error") for e in res.get("validation_errors", []))
+            # tie with the Validator level (constructed objects, same schema/instance)
+            doc, sschemas, _ = doc_build(chains, policy, states, extras)
+            sschemas = {name: sschemas[SECTION]}
+            doc.sections[0].key = name
+            try:
+                direct = sorted((e.code, e.field_path, e.severity) for e in Validator().validate(doc, strict=False, section_schemas=sschemas))
+            except Exception as e:
+                direct = "!" + type(e).__name__
+            if direct != ventries and len(out["disagree"]) < MAX_RECORDED:
+                out["disagree"].append({"case": case, "model": direct, "impl": ventries, "view": "octave_validate.validation_errors vs Validator.validate on constructed objects"})
+            # oracle on what the tool reports
+            rel = [(c, p.replace(name + ".", SECTION + ".", 1), s) for (c, p, s) in ventries]
+            complaints = doc_oracle(chains, policy, states, extras, rel)
+            has_error = any(s == "error" for (_c, _p, s) in ventries)
+            if not complaints:
+                if has_error and status != "INVALID":
+                    complaints.append(f"errors reported but validation_status={status}")
+                if not has_error and status != "VALIDATED":
+                    complaints.append(f"status: no error-severity entry (only {sorted({c for c, _p, _s in ventries})}) but validation_status={status}")
+            if complaints:
+                fid = doc_classify(findings, chains, states, extras)
+                if not fid and policy == "WARN" and complaints[0].startswith("status:") and any(f["cls"] == "warn_policy_invalid" for f in findings) \
+                        and warn_policy_invalid(policy, [k for (k, _e) in seq], FIELD_NAMES[:len(cidx)]):
+                    fid = [f["id"] for f in findings if f["cls"] == "warn_policy_invalid"][0]
+                if fid:
+                    out["known"][fid] = out["known"].get(fid, 0) + 1
+                elif len(out["fail"]) < MAX_RECORDED:
+                    out["fail"].append({"case": case, "why": complaints[0], "why_class": "tool:" + complaints[0].split(":")[0][:40], "observed": ventries, "status": status})
+            if out["sample"] is None:
+                out["sample"] = case
+    finally:
+        os.chdir(old)
+        shutil.rmtree(tmp, ignore_errors=True)
+    return out
+
+
+def warn_policy_invalid(policy, extras, known_fields):
+    """F37: UNKNOWN_FIELDS::WARN and the instance has a field the schema does not define (tool level:
+    octave_validate counts the W001 warning as a validation error)."""
+    return policy == "WARN" and any(k not in known_fields for k in extras)
+
+
+# ================================================================================================
+# A. primitives: the model's Python primitives vs CPython
+# ================================================================================================
+
+NUMERAL_SEEDS = ["0", "1", "-1", "+1", "1.5", ".5", "5.", "1e5", "1E5", "1e-5", "1e+5", "1e400", "-1e400", "1e-400", "4.9e-324", "2.4e-324",
+                 "2.5e-324", "2.47e-324", "1.7976931348623157e308", "1.7976931348623158e308", "1.7976931348623159e308", "0.1",
+                 "0.30000000000000004", "9007199254740993", "9007199254740992.5", "9007199254740993.0", "1_0", "1__0", "_1", "1_", "1_.5",
+                 "1._5", "1e_5", "1_e5", "1e1_0", "inf", "-inf", "+inf", "Infinity", "INFINITY", "infinit", "nan", "-nan", "NaN", "+NAN", "nan1",
+                 "in_f", " 1 ", "\t1\n", "\x0b1\x0c", "\x1c1", "1\x1f", " 1　", "٣", "٣.٥", "１０", "1٣", "e5", "1e", "1e+", "1e5.0", "0x10", "1f",
+                 "--1", "+-1", "1 0", "", "  ", ".", "-", "+", "-.", "-.5e-3", "00012", "1,5", "1.5.2", "١٢٣", "1e0000000000000000000000005",
+                 "0e999999999999999999", "1e-99999999999999999999", "123456789012345678901234567890e-20", "5e-324", "3e-324",
+                 "2.2250738585072014e-308", "2.2250738585072011e-308", "1.00000000000000011102230246251565404236316680908203125",
+                 "1.00000000000000011102230246251565404236316680908203124", "é", "1é", "?", "1?"]
+ISO_SEEDS = ["2024-01-15", "20240115", "2024-W03", "2024-W03-1", "2024W03", "2024W031", "2024-01-15T10:00:00", "2024-01-15T10:00", "2024-01-15T10",
+             "2024-01-15T100000", "2024-01-15T1000", "2024-01-15T10:00:00.123456", "2024-01-15T10:00:00,123", "2024-01-15T10:00:00Z",
+             "2024-01-15T10:00:00+05:00", "2024-01-15T10:00:00-05:30", "2024-01-15T10:00:00+0530", "2024-01-15T10:00:00+05",
+             "2024-01-15T10:00:00+05:30:15", "2024-01-15T10:00:00+05:30:15.123456", "2024-01-15 10:00:00", "2024-01-15x10:00", "20240115T100000Z",
+             "2024W031T1000", "2024-W03-1T10:00", "2024-02-29", "2023-02-29", "1900-02-29", "2000-02-29", "0001-01-01", "9999-12-31", "0000-01-01",
+             "2024-12-31T23:59:59.999999+23:59", "2024-01-15T10:00:00+23:59:59.999999", "2024-01-15T10:00:00-23:59:59.999999",
+             "2024-01-15T10:00:00+24:00", "2024-01-15T24:00:00", "2024-01-15T23:60:00", "2024-01-15T23:59:60", "2020-W53-7", "2021-W53-1",
+             "2015-W53-4", "2016-W52-7", "9999-W52-5", "9999-W52-6", "0001-W01-1", "0000-W01-1", "2024-W01-10", "2024W01110", "2024W0112345",
+             "2024-01-15T10:00:00:123", "2024-01-15T10000012", "2024-01-15T10:+05:00", "2024-01-15T10:00:00.1234567x+05:00", "2024-01-15é10:00",
+             "2024-01-15日10:00", "2024-01-15😀10:00", "٢٠٢٤-٠١-١٥", "2024-01-15\n", "2024-W1", "2024-W", "2024W", "2024-01", "202401", "2024015",
+             "2024-1-15", "24-01-15", "2024-01-15T", "2024-01-15TZ", "2024-01-15T+05", "2024-01-15T10Z", "2024-01-15T10+05", "2024-01-15T1030Z",
+             "2024-01-15T10:30.5", "2024-01-15T10.5", "2024-01-15T10:00:00.", "2024-01-15T10:00:00.Z", "2024-01-15T10:00:00.1Z",
+             "2024-01-15T10:00:00+00:00:00.5", "2024-01-15T10:00:00+00:00:00.5x", "2024-01-15T10:00:00+00:99", "2024-01-15T10:00:00+99",
+             "2024-01-15T10:00:00-00", "", "a", "2024", "20240", "202401150", "2024011", "2024-W03-", "2024-W03-0", "2024-W03-8", "2024-W00", "2024-W54",
+             "2024-W53", "2020-W53", "2024W0", "2024W03-1", "2024-W031", "2024-W03T10", "2024W03T10", "2024W031T10", "2024W0310", "2024W03100"]
+
+
+def mutate(rng, seeds, alpha, n):
+    out = []
+    for _ in range(n):
+        s = rng.choice(seeds)
+        for _ in range(rng.choice([1, 1, 1, 2, 2, 3])):
+            i = rng.randint(0, len(s))
+            op = rng.random()
+            if op < 0.35:
+                s = s[:i] + rng.choice(alpha) + s[i:]
+            elif op < 0.6 and s:
+                s = s[:i] + s[i + 1:]
+            elif op < 0.9 and s:
+                s = s[:i] + rng.choice(alpha) + s[i + 1:]
+            elif s:
+                j = rng.randint(0, len(s))
+                s = s[:min(i, j)] + s[max(i, j):]
+        out.append(s)
+    return out
+
+
+def stage_primitives(ctx, drv):
+    import datetime
+    rng = random.Random(ctx.seed * 7919 + 1)
+    n = ctx.budget(6000, 120000)
+    nums = list(NUMERAL_SEEDS) + mutate(rng, NUMERAL_SEEDS, "0123456789.eE+-_ infatyINFAN\t٣ x", n)
+    nums += ["".join(rng.choice("0123456789.eE+-_ inf") for _ in range(rng.randint(0, 7))) for _ in range(n // 2)]
+    isos = list(ISO_SEEDS) + mutate(rng, ISO_SEEDS, "0123456789-:TWZ+., x\né", n * 2)
+    for y in [1, 2, 4, 100, 400, 1900, 2000, 2023, 2024, 9999]:
+        for m in range(0, 14):
+            for d in [0, 1, 28, 29, 30, 31, 32]:
+                isos.append("%04d-%02d-%02d" % (y, m, d))
+    for y in [1, 2, 2015, 2016, 2020, 2021, 2024, 2026, 9998, 9999]:
+        for w in [0, 1, 52, 53, 54]:
+            for d in range(0, 9):
+                isos.append("%04d-W%02d-%d" % (y, w, d))
+                isos.append("%04dW%02d%d" % (y, w, d))
+    isos = [s for s in isos if "\x00" not in s]
+    ints = [0, 1, -1, 2 ** 53, 2 ** 53 + 1, 2 ** 53 + 2, 2 ** 53 + 3, -(2 ** 53 + 1), 2 ** 54 + 1, 2 ** 54 + 3, 10 ** 22, 10 ** 23, 2 ** 1023, 2 ** 1024 - 2 ** 970 - 1,
+            2 ** 1024 - 2 ** 970, 2 ** 1024 - 2 ** 971, 2 ** 1024, -(2 ** 1024), 10 ** 308, 10 ** 309, 10 ** 400]
+    ints += [rng.getrandbits(rng.randint(1, 1100)) * rng.choice([1, -1]) for _ in range(n // 4)]
+    reqs = ([{"op": "float_of_str", "s": s} for s in nums] + [{"op": "int_of_str", "s": s} for s in nums]
+            + [{"op": "float_of_int", "i": str(i)} for i in ints] + [{"op": "fromiso", "s": s} for s in isos] + [{"op": "date_re", "s": s} for s in isos])
+    reps = drv.batch_par(reqs)
+    it = iter(reps)
+
+    def expect(fn, exc):
+        try:
+            return fn()
+        except exc as e:
+            return {"err": type(e).__name__}
+
+    nbad = 0
+    for label, items, fn in [
+        ("float(str)", nums, lambda s: expect(lambda: {"v": CL.enc_num(float(s))}, ValueError)),
+        ("int(str)", nums, lambda s: expect(lambda: {"v": str(int(s))}, ValueError)),
+        ("float(int)", ints, lambda i: expect(lambda: {"v": CL.enc_num(float(i))}, OverflowError)),
+        ("fromisoformat", isos, lambda s: expect(lambda: (datetime.datetime.fromisoformat(s), {"ok": True})[1], ValueError)),
+        ("date regex", isos, lambda s: {"ok": bool(re.match(r"^\d{4}-\d{2}-\d{2}$", s))}),
+    ]:
+        acc = 0
+        for x in items:
+            r = next(it)
+            e = fn(x)
+            if e == {"err": "ValueError"} and label == "fromisoformat":
+                e = {"ok": False}
+            acc += ("v" in e) or e.get("ok") is True
+            ctx.evaluations += 1
+            if "unsupported" in r:
+                ctx.count("prim:unsupported:" + label)
+                continue
+            if r != e:
+                nbad += 1
+                if len(ctx.corr_disagreements) < MAX_RECORDED:
+                    ctx.corr_disagreements.append({"case": {"kind": "primitive", "fn": label, "arg": str(x)[:200]}, "model": r, "impl": e, "view": "CPython primitive"})
+        ctx.count(f"prim:{label}:cases", len(items))
+        ctx.count(f"prim:{label}:accepted", acc)
+        ctx.distinct.bulk(len(set(map(str, items))))
+    return nbad
+
+
+# ================================================================================================
+# known findings
+# ================================================================================================
+
+def replay_known(ctx, findings):
+    from octave_mcp.core.constraints import ConstraintChain
+    for f in findings:
+        w = f["witness"]
+        try:
+            if f["cls"] == "range_nan":
+                r = ConstraintChain.parse(w["text"]).evaluate(CL.dec_val(w["value"]), "F")
+                if r.valid:
+                    ctx.known_reproduced.append((f, f"{w['text']} accepts {w['value']}"))
+            elif f["cls"] == "range_int_overflow":
+                try:
+                    ConstraintChain.parse(w["text"]).evaluate(CL.dec_val(w["value"]), "F")
+                except OverflowError:
+                    ctx.known_reproduced.append((f, f"{w['text']} on a {len(w['value']['i'])}-digit int raises OverflowError"))
+            elif f["cls"] == "warn_policy_invalid":
+                out = tool_worker(([(tuple(w["chain_idx"]), w["policy"], w["states"], w["extras"])], [], 9999))
+                if out["fail"] and out["fail"][0]["why"].startswith("status:"):
+                    ctx.known_reproduced.append((f, out["fail"][0]["why"][:160]))
+        except Exception as e:
+            ctx.notes.append(f"known finding {f['id']}: witness replay raised {type(e).__name__}: {e}")
+
+
+# ================================================================================================
+# replay of one recorded case
+# ================================================================================================
+
+def run_replay(ctx, exe, findings):
+    data = json.loads(open(ctx.replay).read())
+    case = data.get("case") or {}
+    kind = case.get("kind")
+    ctx.notes.append(f"replay of {ctx.replay} kind={kind}")
+    if kind == "chain":
+        specs = case["chain"]
+        objs = [CL.build_impl(c) for c in specs]
+        v = CL.dec_val(case["value"])
+        codes, exc = impl_chain_eval(objs, v)
+        pats = [c[1] for c in specs if c[0] == "REGEX"]
+        rows, ok = CL.re_tables(pats, [v])
+        rep = vlib.Driver(exe).batch([{"op": "chain_eval", "chain": [CL.obj_to_driver(o) for o in objs], "value": case["value"],
+                                        "env": {"re": rows, "reok": ok, "fr": []}}])[0]
+        want = CL.oracle_chain(specs, v)
+        print(f"replay: impl={cell_of(codes, exc)} model={rep} oracle_valid={want}")
+        ctx.case(case)
+        if exc is not None or (want is not None and (codes == []) != want) or ("spec" in rep and exc is None and (codes == []) != rep["spec"]):
+            if not classify(findings, specs, v):
+                ctx.failures.append({"case": case, "why": f"replayed: impl={cell_of(codes, exc)} oracle_valid={want} lean_spec={rep.get('spec')}", "why_class": "replay"})
+    elif kind == "parse":
+        texts = [(case["text"], None)]
+        o = parse_worker((exe, "Vs", texts, findings)) if "value" not in case else None
+        if o is None:
+            _POOLS["Vr"] = ([case["value"]], [CL.dec_val(case["value"])])
+            o = parse_worker((exe, "Vr", texts, findings))
+        print("replay:", json.dumps({k: o[k] for k in ("disagree", "fail", "known")}, ensure_ascii=False, default=str)[:2000])
+        ctx.case(case)
+        ctx.failures += o["fail"]
+        ctx.corr_disagreements += o["disagree"]
+    elif kind == "doc":
+        o = doc_worker((exe, [(case["chains"], case["policy"], case["states"], case["extras"])], findings))
+        print("replay:", json.dumps({k: o[k] for k in ("disagree", "fail", "known")}, ensure_ascii=False, default=str)[:2000])
+        ctx.case(case)
+        ctx.failures += o["fail"]
+        ctx.corr_disagreements += o["disagree"]
+    elif kind == "tool":
+        o = tool_worker(([(tuple(case["chain_idx"]), case["policy"], case["states"], case["extras"])], findings, 9998))
+        print("replay:", json.dumps({k: o[k] for k in ("disagree", "fail", "known")}, ensure_ascii=False, default=str)[:2000])
+        ctx.case(case)
+        ctx.failures += o["fail"]
+        ctx.corr_disagreements += o["disagree"]
+    else:
+        ctx.notes.append("replay file has no re-executable case (tie-broken replay): running the full check instead")
         return False
-    if any(a != b for a, b in itertools.combinations(consts, 2)):
-        return False
-    if any(pstr(c) not in e for e in enums for c in consts):
-        return False
-    for c in chain:
-        if c[0] == "REQ" and (value is None or value == ""):
-            return False
-        if c[0] == "CONST" and value != c[1]:
-            return False
-        if c[0] == "ENUM":
-            s = pstr(value)
-            if s not in c[1] and len([a for a in c[1] if a.startswith(s)]) != 1:
-                return False
     return True
 
 
+# ================================================================================================
+# enumeration of the explored spaces
+# ================================================================================================
+
+def chain_tasks(exe, cname, vname, lengths, findings, per_task):
+    n = len(pools(cname)[0])
+    it = itertools.chain.from_iterable(itertools.product(range(n), repeat=k) for k in lengths)
+    for chunk in chunked(it, per_task):
+        yield (exe, cname, vname, chunk, findings)
+
+
+def text_cases(thorough, widen, rng):
+    core, more = CL.POOL_T_CORE, CL.POOL_T_MORE
+    allt = core + more
+    seen, out = set(), []
+
+    def add(parts, sep):
+        text = sep.join(parts)
+        if text in seen:
+            return
+        seen.add(text)
+        out.append((text, list(parts)))
+
+    for t in allt:
+        add([t], "")
+    for a in core:
+        for b in core:
+            for sep in CL.SEPARATORS:
+                add([a, b], sep)
+    for a in allt:
+        for b in allt:
+            for sep in ("∧", " "):
+                add([a, b], sep)
+    if thorough or widen > 1:
+        sub = core if thorough else core[:24]
+        for a in sub:
+            for b in sub:
+                for c in sub:
+                    for sep in ("∧", " "):
+                        add([a, b, c], sep)
+    if thorough:
+        for _ in range(40000):
+            k = rng.choice([3, 4])
+            add([rng.choice(allt) for _ in range(k)], rng.choice(CL.SEPARATORS))
+    return out
+
+
+def doc_cases(thorough, widen, rng):
+    cases = []
+    for ci in range(len(DOC_CHAINS)):
+        for pol in DOC_POLICIES:
+            for st in DOC_STATES:
+                for ex in DOC_EXTRAS:
+                    cases.append(([DOC_CHAINS[ci]], pol, [st], ex))
+    big = thorough or widen > 1
+    cidx = range(len(DOC_CHAINS)) if big else [1, 3, 4, 7, 0, 6]
+    states = DOC_STATES if thorough else [DOC_STATES[i] for i in (0, 1, 2, 3, 5, 6, 13, 15)]
+    for a in cidx:
+        for b in cidx:
+            for pol in DOC_POLICIES:
+                for sa in states:
+                    for sb in states:
+                        for ex in DOC_EXTRAS:
+                            cases.append(([DOC_CHAINS[a], DOC_CHAINS[b]], pol, [sa, sb], ex))
+    for _ in range(100000 if thorough else (20000 if widen > 1 else 3000)):
+        cs = [rng.choice(DOC_CHAINS) for _ in range(3)]
+        ex = rng.choice(DOC_EXTRAS + [["A_FIELD_X", "B_FIELD"], ["b_field"], ["É"]])
+        cases.append((cs, rng.choice(DOC_POLICIES), [rng.choice(DOC_STATES) for _ in range(3)], ex))
+    return cases
+
+
+def tool_cases(thorough, widen, rng):
+    cases = []
+    pols = ["REJECT", "WARN", "IGNORE"]
+    for ci in range(len(DOC_CHAINS)):
+        for pol in pols:
+            for st in DOC_STATES:
+                for ex in DOC_EXTRAS[:3]:
+                    cases.append(((ci,), pol, [st], ex))
+    n2 = 40000 if thorough else (8000 if widen > 1 else 1500)
+    for _ in range(n2):
+        k = rng.choice([2, 2, 3])
+        cases.append((tuple(rng.randrange(len(DOC_CHAINS)) for _ in range(k)), rng.choice(pols), [rng.choice(DOC_STATES) for _ in range(k)], rng.choice(DOC_EXTRAS)))
+    return cases
+
+
+# ================================================================================================
 def run(ctx: vlib.Ctx):
-    ctx.rule = ("all chains of length <= L over the constraint pool x the value pool (exhaustive); a case is non-trivial "
-                "when the chain is non-empty; distinct = distinct (chain, value)")
+    ctx.distinct = DistinctCounter()
+    ctx.rule = ("exhaustive: every chain of constructed constraints of length <= L over the constraint pool x every value of the value pool; every chain "
+                "text of <= L part texts x separators x the small value pool; every generated (schema, policy, instance block); primitives: seeds + "
+                "seeded mutations. A case is non-trivial when the chain/text/schema is non-empty. Exhaustive enumerations are distinct by construction "
+                "(counted, not hashed); distinct = number of distinct (program, value) pairs explored.")
     ctx.translate(PROJECT)
     proj = ctx.lean(PROJECT, PROPS)
-    if vlib.fingerprints_changed(ctx.prop, ANCHORS):
+    ctx.n_facts = sum(1 for (_l, k, n) in vlib.declarations(proj.module_path(PROPS[0])) if k == "theorem" and n.startswith("gen_"))
+    ctx.n_facts = 0   # gen_* facts are theorems of Props/C08 and already counted there
+    changed = vlib.fingerprints_changed(ctx.prop, ANCHORS)
+    if changed:
         ctx.widen = max(ctx.widen, 8)
-        ctx.notes.append("fingerprint of a modelled function changed: search widened")
-    L = 3 if ctx.thorough or ctx.widen > 1 else 2
-    cases = []
-    for n in range(0, L + 1):
-        for chain in itertools.product(POOL_C, repeat=n):
-            for v in POOL_V:
-                cases.append((chain, v))
+        ctx.notes.append(f"fingerprint of modelled function(s) changed: {changed}: search widened")
     drv = proj.driver()
-    replies = drv.batch_par([{"op": "chain_eval", "chain": [enc_c(c) for c in ch], "value": enc_val(v)} for ch, v in cases])
-    for (ch, v), rep in zip(cases, replies):
-        case = {"chain": [list(map(lambda x: list(x) if isinstance(x, tuple) else x, c)) for c in ch], "value": v}
-        ctx.case(case, nontrivial=len(ch) > 0)
-        try:
-            impl = impl_eval(ch, v)
-            impl_exc = None
-        except Exception as e:  # the property gives evaluate no licence to raise
-            impl, impl_exc = None, f"{type(e).__name__}: {e}"
-        # correspondence (view: list of error codes)
-        if "unsupported" in rep:
-            ctx.count("model_unsupported")
-        elif impl_exc is None and rep["codes"] != impl:
-            ctx.corr_disagreements.append({"case": case, "model": rep["codes"], "impl": impl, "view": "error codes"})
-        # oracle on the real code
-        want = spec_accepts(ch, v)
-        if impl_exc is not None:
-            ctx.failures.append({"case": case, "why": f"evaluate raised {impl_exc}", "why_class": "raise"})
-        elif (impl == []) != want:
-            ctx.failures.append({"case": case, "why": f"chain verdict valid={impl == []} but documented semantics say {want}",
-                                 "why_class": "verdict", "observed": impl, "required_valid": want})
-        ctx.count("valid" if impl == [] else "invalid:" + ",".join(impl or ["raise"]))
-    ctx.trusted = ["Lean 4.33.0 kernel; axioms per theorem in coverage.theorems", "tools/translate.py (Gen/Constraints)",
-                   "correspondence: tools/props/c08.py (differential, exhaustive over pools)",
-                   "modelled, not verified: constraints.py evaluate/detect_conflicts control flow"]
-    ctx.assumptions = ["Python == / str() on None/bool/int/str/list as transcribed in Model/Value.lean"]
+    exe = drv.exe
+    findings = vlib.load_findings(ctx.prop)
+    ctx.trusted = ["Lean 4.33.0 kernel; axioms per theorem in coverage.theorems", "tools/gen/constraints.py (Gen/Constraints, Gen/Validator, Gen/Unicode)",
+                   "correspondence harness tools/props/c08.py + tools/harness/constraints_lib.py (differential, exhaustive over pools)",
+                   "modelled, not verified: control flow of constraints.py evaluate/parse/detect_conflicts and of validator._validate_section/_validate_unknown_fields",
+                   "external, supplied per case by the harness from the running CPython: re.match / re.compile verdicts, repr(float)",
+                   "modelled and validated differentially against the running CPython: float(str), int(str), float(int) (round-half-even to binary64), "
+                   "datetime.fromisoformat acceptance (3.12 C implementation, on UTF-8 bytes), str()/repr() of the modelled value kinds, str.strip()"]
+    ctx.assumptions = ["Python == / str() / repr() on None/bool/int/float/str/list/LiteralZoneValue as transcribed in Model/Value.lean; a nan inside a list "
+                       "(identity shortcut of list ==), non-ASCII text inside repr(), non-ASCII str.lower(), fromisoformat with an embedded NUL or an ISO week "
+                       "date of year 0000, dict values: outside the model (driver answers `unsupported`, counted)",
+                       "RANGE on an int beyond 2^53 is compared after binary64 rounding by the code; the oracle does not judge the cases where rounding changes the verdict",
+                       "ISO8601: 'date or datetime' is read as 'what datetime.fromisoformat accepts after Z -> +00:00' (DESIGN C08); the oracle judges the "
+                       "documented forms and the strings that cannot start an ISO date, nothing in between",
+                       "ENUM with duplicated allowed values: 'unique prefix' is counted per list entry by the code; the oracle does not judge that corner",
+                       "target routing (E009) is not modelled: generated schemas carry no targets"]
+    if ctx.replay:
+        if run_replay(ctx, exe, findings):
+            return
+    rng = random.Random(ctx.seed * 104729 + 17)
+    ctx.extra["pool_sizes"] = {"constraints_core": len(CL.POOL_C_CORE), "constraints_more": len(CL.POOL_C_MORE), "constraints_thorough": len(CL.POOL_C_THOROUGH),
+                               "values": len(CL.POOL_V), "values_small": len(CL.POOL_V_SMALL), "texts": len(CL.POOL_T_CORE) + len(CL.POOL_T_MORE)}
+    # -- known findings -------------------------------------------------------------------------
+    replay_known(ctx, findings)
+    # -- A. primitives --------------------------------------------------------------------------
+    stage_primitives(ctx, drv)
+    # -- B. grid ----------------------------------------------------------------------------------
+    tasks = []
+    if ctx.thorough:
+        tasks += list(chain_tasks(exe, "C:core+more+thorough", "V", [0, 1, 2], findings, 120))
+        tasks += list(chain_tasks(exe, "C:core+more", "V", [3], findings, 300))
+        tasks += list(chain_tasks(exe, "C:core", "Vs", [4], findings, 2000))
+        ctx.extra["grid_scope"] = "L<=2 over core+more+thorough x V; L=3 over core+more x V; L=4 over core x Vs"
+    else:
+        tasks += list(chain_tasks(exe, "C:core+more", "V", [0, 1, 2], findings, 60))
+        ctx.extra["grid_scope"] = "L<=2 over core+more x V"
+        if ctx.widen > 1:
+            tasks += list(chain_tasks(exe, "C:core+more+thorough", "Vs", [2], findings, 200))
+            tasks += list(chain_tasks(exe, "C:core+more", "Vs", [3], findings, 1500))
+            ctx.extra["grid_scope"] += "; widened: L=2 over +thorough x Vs, L=3 over core+more x Vs"
+    outs = vlib.pmap(grid_worker, tasks, chunksize=1)
+    merge(ctx, outs, "grid")
+    # -- C. parse ---------------------------------------------------------------------------------
+    texts = text_cases(ctx.thorough, ctx.widen, rng)
+    ptasks = [(exe, "Vs", chunk, findings) for chunk in chunked(texts, 400)]
+    outs = vlib.pmap(parse_worker, ptasks, chunksize=1)
+    merge(ctx, outs, "parse")
+    ctx.count("parse:texts", len(texts))
+    # -- D. document level --------------------------------------------------------------------------
+    dcases = doc_cases(ctx.thorough, ctx.widen, rng)
+    outs = vlib.pmap(doc_worker, [(exe, chunk, findings) for chunk in chunked(dcases, 1500)], chunksize=1)
+    merge(ctx, outs, "doc")
+    tcases = tool_cases(ctx.thorough, ctx.widen, rng)
+    per = max(50, len(tcases) // (vlib.NCPU * 2))
+    outs = vlib.pmap(tool_worker, [(chunk, findings, i) for i, chunk in enumerate(chunked(tcases, per))], chunksize=1)
+    merge(ctx, outs, "tool")
+    if len(ctx.samples) < 3:
+        for o in outs:
+            if o.get("sample") is not None and len(ctx.samples) < 4:
+                ctx.samples.append(o["sample"])
